@@ -59,6 +59,9 @@ func goEnv() []string {
 
 func die(code int, format string, args ...any) {
 	fmt.Fprintf(os.Stderr, "verifctl: "+format+"\n", args...)
+	if tmpDir != "" {
+		os.RemoveAll(tmpDir)
+	}
 	os.Exit(code)
 }
 
